@@ -20,7 +20,7 @@ def base_scenario(i, rnd, calls, big=False):
                                          {"name": "D2", "code": 0xC3, "dims": []}, {"name": "BW", "code": 0xC4, "dims": []}])
     return {"id": "q%d" % i, "family": "sequence", "target": {"policy": "LargeOK", "identity": S.identity(fw=32)},
             "project": proj, "mem": mem, "driver": {"kind": "logix", "path": "10.3.3.3", "route": [S.port_seg("bp", 0)], "init_tags": True},
-            "calls": [{"api": "open"}] + calls + [{"api": "close"}], "budget": 3000000 if big else 30000}
+            "calls": [{"api": "open"}] + calls + [{"api": "close"}], "budget": 3000000 if big else 30000, "call_seconds": 3600 if big else 300}
 
 
 def ops(rnd):
